@@ -556,12 +556,34 @@ class Parser:
 
     def literal_eval(self, token: TokenInfo) -> Any:
         """Evaluate a literal token; an error of the literal is reported at the token, not relative to its own text."""
+        if token.type == Token.NUMBER:
+            self._verify_end_of_number(token)
         try:
             return ast.literal_eval(token.string)
         except SyntaxError as err:
             self.raise_syntax_error_known_location(err.msg, token)
         except ValueError as err:  # e.g. integer string conversion limit
             self.raise_syntax_error_known_location(str(err), token)
+
+    _AFTER_NUMBER: ClassVar[tuple[str, ...]] = ("and", "else", "for", "if", "in", "is", "not", "or")
+
+    def _verify_end_of_number(self, token: TokenInfo) -> None:
+        """A letter right after a number belongs to the literal for CPython, unless it starts one of a few keywords ('1if x else y').
+
+        The number pattern stops at the digits and the letters come out as a NAME, which is what subprocess words need
+        ('dd bs=1k'); in Python code '1from', '1as' or '0or' (an octal prefix) are malformed literals."""
+        text, rest = token.string, token.line[token.end[1] :] if token.end[0] == token.start[0] else ""
+        if not rest or not (rest[0].isascii() and (rest[0].isalpha() or rest[0] == "_")):
+            return
+        kind = {"0x": "hexadecimal", "0o": "octal", "0b": "binary"}.get(text[:2].lower())
+        if kind is None and text == "0" and rest[0] in "oObBxX":
+            kind = {"o": "octal", "b": "binary", "x": "hexadecimal"}[rest[0].lower()]
+        elif rest.startswith(self._AFTER_NUMBER):
+            return
+        if kind is None:
+            kind = "imaginary" if text[-1] in "jJ" else "decimal"
+        end = token._replace(start=token.end, end=(token.end[0], token.end[1] + 1))
+        self.raise_syntax_error_known_range(f"invalid {kind} literal", token, end)
 
     def ensure_real(self, number: TokenInfo) -> float | int:
         value = self.literal_eval(number)
